@@ -52,6 +52,11 @@ NA = {
 
 # id -> (category, text, note, technique, design_ref)
 CLAIMED = {
+ "C12": ("exploration",
+         "Goals are drawn from a control DSL (true, fail, marks, bindings of three variables, throw with atom / bc(Var) sharing a variable with catchers / error(_,_) / string / bignum balls, ten builtin errors, conjunction, disjunction, if-then-else, \\+, once, call, catch/3 with nine catcher shapes and DSL recovery goals, setup_call_cleanup/3 with marks as setup and cleanup), nesting depth <= 5. Each goal runs to completion inside findall/3 on the real machine and on a reference interpreter (innermost active catch whose catcher unifies with a copy of the ball; a catch is not active for its own continuation; bindings since the catch undone; recovery continues normally). Compared: solutions, uncaught ball (builtin errors: shape error(Formal, Context) and ISO kind of Formal), the order of ordinary marks, cleanup count == completed setup count per setup_call_cleanup, and that every assertz done alongside a mark is visible. Fault configuration (1 run in 2): the goal is run again with an interrupt injected at a seeded instruction (an exception at a point the program did not choose); then: no crash/hang, no cleanup twice, at most one cleanup lost, the goal re-run unfaulted gives exactly its first result, and a follow-up query gives the fresh-machine answer.",
+         "Trusts the reference interpreter (0 disagreements on ~16 000 goals per quick run outside the one recorded defect). The instant at which a cleanup runs is not asserted, only its count once all choice points are gone. Cut is exercised through once/1, if-then-else and \\+ (no bare ! in the DSL).",
+         "deterministic simulation: seeded control-DSL goals against a reference interpreter, with an interrupt injected at a seeded instruction as the unchosen exception; re-run and fresh-machine follow-up as consistency oracle",
+         "DESIGN.md §3 C12"),
  "C09": ("exploration",
          "Interleavings of cursors (partially consumed calls of dynamic predicates with unbound / bound / partially bound first arguments, calls through a rule body into a second dynamic predicate, clause/2, re-entrant retract/1, once/1, \\+) and writers (assertz, asserta, rule assertion, retract once, retractall, abolish, throw) are drawn from the seed and realised on one machine as a conjunction `op1,...,opn,fail` whose choice points are resumed LIFO; every cursor answer is logged by side effect. The log, the final database read back through clause/2 and through fresh calls must equal a reference interpreter over an MVCC list model (clause = (birth, death); a call opened at generation g sees birth <= g < death in list order; asserta front / assertz back; retract removes the first visible match and is re-entrant over its own snapshot). One run in four injects an interrupt at a seeded instruction of the history (crash point): then the log must be a prefix of the model's log and the database one of the states the model passes through at that log length. Histories that leave what the statement fixes (a modified clause/2 cursor, a re-entrant retract meeting a clause someone else removed) are only checked for crashes. Seeded sampling of an open space of histories.",
          "Trusts the MVCC reference interpreter (validated: 0 disagreements on ~20 000 non-hazard histories per quick run after the three repairs) and the LIFO realisation of interleavings (a cursor can only be resumed after everything opened later is exhausted). Histories that touch an index bucket under an open indexed cursor, or asserta into a bucket after a retraction in it, are keyed apart because two recorded defects live there (known_findings.json).",
